@@ -1,0 +1,27 @@
+//go:build verif
+
+// Verification contracts (comments only; compiled only with -tags verif).
+// Checked by /verif/bin/govc; see /verif/DESIGN.md.
+
+package v1
+
+//@ // ---- C10 (version 1 configuration): the proposer's own entry over the default entry over the fallback values ----
+//@ // the entry that applies to a validator
+//@ spec func entryFor(e *ExecutionConfig, pubkey phase0.BLSPubKey) *ProposerConfig = in(e.ProposerConfigs, pubkey) ? e.ProposerConfigs[pubkey] : e.DefaultConfig
+//@
+//@ func (*ExecutionConfig).ProposerConfig
+//@   requires e != nil
+//@   ensures result1 == nil && result0 != nil
+//@   // fee recipient: that of the entry; without any entry the fallback, and no relays
+//@   ensures entryFor(e, pubkey) != nil ==> result0.FeeRecipient == entryFor(e, pubkey).FeeRecipient
+//@   ensures entryFor(e, pubkey) == nil ==> result0.FeeRecipient == fallbackFeeRecipient && len(result0.Relays) == 0
+//@   // relays: those of the entry when its builder section is enabled, each with the entry's fee recipient, its gas limit
+//@   // (the fallback gas limit when the entry has none) and the builder section's grace time
+//@   ensures entryFor(e, pubkey) != nil && entryFor(e, pubkey).Builder != nil && entryFor(e, pubkey).Builder.Enabled ==> len(result0.Relays) == len(entryFor(e, pubkey).Builder.Relays) && (forall k int :: 0 <= k && k < len(result0.Relays) ==> result0.Relays[k] != nil && result0.Relays[k].Address == entryFor(e, pubkey).Builder.Relays[k] && result0.Relays[k].FeeRecipient == entryFor(e, pubkey).FeeRecipient && result0.Relays[k].GasLimit == (entryFor(e, pubkey).GasLimit == 0 ? fallbackGasLimit : entryFor(e, pubkey).GasLimit) && result0.Relays[k].Grace == entryFor(e, pubkey).Builder.Grace)
+//@   ensures entryFor(e, pubkey) != nil && (entryFor(e, pubkey).Builder == nil || !entryFor(e, pubkey).Builder.Enabled) ==> len(result0.Relays) == 0
+//@   loop 1
+//@     invariant -1 <= rangeindex && rangeindex < len(builder.Relays) && len(relays) == rangeindex + 1
+//@     invariant forall k int :: 0 <= k && k <= rangeindex ==> relays[k] != nil && relays[k].Address == builder.Relays[k] && relays[k].FeeRecipient == proposerConfig.FeeRecipient && relays[k].GasLimit == gasLimit && relays[k].Grace == builder.Grace
+//@   // C17: the lookup runs under the block relay's read lock, concurrently with other lookups of the same configuration:
+//@   // it writes nothing that existed before
+//@   modifies nothing
